@@ -92,6 +92,10 @@ pub fn oov_rows() -> Vec<Row> {
         Row::new("1", 9, 9, 2478, P_NUM),
         Row::new("東京", 6, 6, 2816, P_PROPN),
         Row::new("株式会社", 7, 8, 4000, P_NOUN),
+        // dictionary words that begin with a character which may not begin an unknown word
+        Row::new("ー", 7, 7, 4500, P_NOUN),
+        Row::new("ァア", 7, 7, 4600, P_NOUN),
+        Row::new("\u{301}", 5, 5, 4700, P_SYM),
     ]
 }
 
